@@ -1,5 +1,6 @@
 SPECIFICATION SpecFam
 CONSTANTS
+  RICH = FALSE
   MINNODES = 0
   MAXSTACK = 99
   BUDGET = 0
